@@ -547,3 +547,41 @@ func VF_C01_LaterHistory(n, kind int) {
 	vf.BudgetReset()
 	vf.Reach("end")
 }
+
+// VF_C01_LongSort: SortValues / ReverseValues on lists and arrays longer than the one-operation harnesses reach
+// (7..26 values: a concrete descending or saw-tooth pattern with one arbitrary value); kind 0 List, 1 Array.
+func VF_C01_LongSort(n, sel int) {
+	kind, pattern := sel%2, sel/2
+	xs := make([]int, n)
+	for i := range xs {
+		if pattern == 0 {
+			xs[i] = 2 * (n - i)
+		} else {
+			xs[i] = 2 * ((n - i) % 4)
+		}
+	}
+	b := vf.Int("b")
+	vf.Assume(vf.And(b >= -1, b <= 2*n+1))
+	if n > 0 {
+		xs[n-1] = b
+	}
+	vf.Budget(600 * listBudget)
+	var c sortableInts
+	if kind == 0 {
+		c = newList(xs)
+	} else {
+		c = newArr(xs)
+	}
+	c.SortValues()
+	got := c.AsArray()
+	ok := len(got) == n
+	for i := 0; i+1 < len(got); i++ {
+		ok = vf.And(ok, got[i] <= got[i+1])
+	}
+	vf.Assert("long-sort-ascending", ok)
+	vf.Assert("long-sort-permutation", isPerm(got, xs))
+	c.ReverseValues()
+	vf.Assert("long-reverse-exact", eqInts(c.AsArray(), rev(got)))
+	vf.BudgetReset()
+	vf.Reach("end")
+}
